@@ -9,10 +9,15 @@
    a failed eager run but the error class).
    White box: every trace must be accepted by the LTS of Model/TaskMgr.v, the LTS must end with
    as many uncollected tasks as the harness counted, and none in batch mode.
-   Both together (eager mode): the collection order recorded in the trace is a schedule of the
-   order-side model; under it the model must return the same outcome, start exactly the same
-   executions and leave exactly the same tasks running ([eager_run_ok]). *)
-From Eino Require Import Base.Util Model.TaskMgr Model.Confluence Model.EagerSkip.
+   Both together: the whole trace is replayed on the composed system of Model/RunHandoff.v
+   ([conf_run]: protocol LTS + run loop; the run loop of the model decides which tasks are handed to
+   the task manager, which of them synchronously, when the collector starts waiting and what is done
+   with the tasks in the order they were collected); the replay must accept the trace, return the
+   same outcome, have started exactly the same executions and leave exactly the same tasks in flight
+   ([conf_ok]; batch and eager mode, graphs without branches).  Eager graphs with branches
+   (Model/EagerSkip.v): the collection order recorded in the trace is replayed as a schedule of the
+   order-side model ([eager_run_ok]). *)
+From Eino Require Import Base.Util Model.TaskMgr Model.Confluence Model.EagerSkip Model.RunHandoff.
 
 Inductive robs := RVal (v : val) | RErr | RPanic | RHang.
 
@@ -133,6 +138,21 @@ Definition eager_run_ok (g : graph) (brs : list br) (r : trun) : bool :=
   log_eqb (r_log r) log &&
   set_eqb lrun (filter (fun x => negb (nmem x seq)) (submitted (r_trace r))).
 
+(* the whole traced run on the composed system (graphs without branches) *)
+Definition mode_of (c : ccase) : mode := match c_mode c with 0%N => Pregel | _ => Dag end.
+Definition conf_ok (c : ccase) (r : trun) : bool :=
+  match conf_run (is_batch c) (mode_of c) (c_graph c) (fuel_of (c_graph c)) (r_trace r) with
+  | Some (_, (res, log, lrun)) =>
+      match r_out r, res with
+      | RVal v, Some (ODone v') => val_eqb v v'
+      | RErr, Some OFail => true
+      | _, _ => false
+      end &&
+      log_eqb (r_log r) log &&
+      set_eqb lrun (filter (fun x => negb (nmem x (recv_seq (r_trace r)))) (submitted (r_trace r)))
+  | None => false
+  end.
+
 Definition trace_ok (c : ccase) (r : trun) : bool :=
   accepts (r_trace r) &&
   match trace_leftover (r_trace r) with
@@ -141,7 +161,9 @@ Definition trace_ok (c : ccase) (r : trun) : bool :=
       (if is_batch c then Nat.eqb lft 0 else true)
   | None => false
   end &&
-  (if is_batch c || is_nil (c_graph c) then true else eager_run_ok (c_graph c) (c_brs c) r).
+  (if is_nil (c_graph c) then true
+   else if is_nil (c_brs c) then conf_ok c r
+   else if is_batch c then true else eager_run_ok (c_graph c) (c_brs c) r).
 
 Definition bad (c : ccase) : bool :=
   negb ((is_nil (c_graph c) || forallb (obs_ok c) (c_obs c)) && forallb (trace_ok c) (c_traces c)).
